@@ -57,8 +57,8 @@ class C17(PropBase):
                 if 0 < a < (1 << 24):
                     addrs.add(a)
         addrs = sorted(addrs)
-        ops = ["reset", gen.cfg_op(delete_after=600), "case 0"] + gen.seg([F.df11(5, a, 0) for a in addrs]) + ["dump"]
-        impl, _, model = run.execute(ops, model=driver_ok)
+        ops = ["reset", gen.cfg_op(delete_after=600, groups="e"), "case 0"] + gen.seg([F.df11(5, a, 0) for a in addrs]) + ["dump", "render"]
+        impl, so_edges, model = run.execute(ops, model=driver_ok)
         rep.evaluations += len(addrs); rep.traces += 1
         self.corr(rep, impl, model, "rows created through the reader at block edges")
         rows = gen.parse_dump(impl)
@@ -72,6 +72,22 @@ class C17(PropBase):
             if got != want:
                 self.fail(rep, f"row created by the reader for {a:06X} shows {got}, the allocation table says {want}",
                           {"ops": ["reset"] + gen.seg([F.df11(5, a, 0)]) + ["dump"], "address": a, "expected": want})
+                return
+        # .. and what the printed table shows in the RG column of those rows: the whole code of the block (the blocks ICAO keeps for
+        # itself have five-character codes), left-aligned behind the address
+        from props import render_common as RC
+        blocks = RC.renders(so_edges)
+        if not blocks:
+            raise core.Broken("render markers missing in the implementation's stdout", so_edges[-200:])
+        shown = {}
+        for t in blocks[-1][2:]:
+            if len(t) >= 8 and all(c in "0123456789ABCDEF" for c in t[:6]):
+                shown[int(t[:6], 16)] = t[7:].split(" ")[0]
+        for a in addrs:
+            want = next(c for (lo, hi), c in seg_of.items() if lo <= a <= hi)
+            if shown.get(a) != want:
+                self.fail(rep, f"the printed row of {a:06X} shows country {shown.get(a)!r}, the allocation table says {want!r}",
+                          {"ops": ["reset", gen.cfg_op(groups="e")] + gen.seg([F.df11(5, a, 0)]) + ["dump", "render"], "address": a, "expected": want})
                 return
         # the code shown is a function of the address alone - whatever the row has been through: histories of every format,
         # silences on both sides of delete_after with few frames in between (a row may outlive its expiry until the next
